@@ -56,22 +56,25 @@ def replay_source(ctx, data, log, budget=20000):
 
 def deep_recursion_family():
     """Recursions that drive the operand stack across its 16-bit limit at every alignment: p parameters, l own
-    locals, m pending operands per level.  Each returns (source, value it has if it is allowed to finish).
-    The machine may answer with the recursion-limit error instead - never with another value."""
+    locals, m pending operands per level.  Each returns (source, value it has if it is allowed to finish): every
+    level adds to an accumulator parameter (p >= 2) and to the pending additions, and the innermost activation checks
+    its own parameters.  The machine may answer with the recursion-limit error instead - never with another value."""
     out = []
     for p in (1, 2, 3):
         for l in (0, 1, 2):
             for m in (0, 1, 2):
                 per = p + l + m + 1
                 for depth in (300, 66000 // per + 40, 66000 // max(1, per - 1) + 40, 33000, 70000):
-                    params = ", ".join(["n"] + ["q%d" % i for i in range(1, p)])
-                    args = ", ".join(["n - 1"] + ["q%d" % i for i in range(1, p)])
+                    params = ["n"] + (["acc"] if p >= 2 else []) + (["mark"] if p >= 3 else [])
+                    args = ["n - 1"] + (["acc + 2"] if p >= 2 else []) + (["mark"] if p >= 3 else [])
                     locs = "".join("stel w%d = n; " % i for i in range(l))
-                    call = "f(%s)" % args
-                    expr = call
+                    base = "acc" if p >= 2 else "5"
+                    if p >= 3:
+                        base = "als mark == 77 { %s } anders { 0 - 1 }" % base
+                    expr = "f(%s)" % ", ".join(args)
                     for _ in range(m):
                         expr = "1 + (%s)" % expr
-                    first = ", ".join([str(depth)] + [str(i) for i in range(1, p)])
-                    src = "functie f(%s) { %sals n == 0 { antwoord 0 } %s } f(%s)" % (params, locs, expr, first)
-                    out.append((src, m * depth))
+                    first = [str(depth)] + (["0"] if p >= 2 else []) + (["77"] if p >= 3 else [])
+                    src = "functie f(%s) { %sals n == 0 { antwoord %s } %s } f(%s)" % (", ".join(params), locs, base, expr, ", ".join(first))
+                    out.append((src, m * depth + (2 * depth if p >= 2 else 5)))
     return out
